@@ -35,7 +35,7 @@ def main(argv):
     ctx = Ctx(prop, tier, seed)
     try:
         mod = importlib.import_module(f"harness.{prop.lower()}")
-        axioms = lean_io.ensure_built()
+        axioms = lean_io.ensure_built(prop)
         if mode == "replay":
             path = argv[argv.index("--replay") + 1]
             data = json.load(open(path))
